@@ -12,8 +12,8 @@ Hypothesis tpos : 0 < tstep.
 Let x' := dd_eposnew_real x gauss (Dt x).
 
 (* shape-independent proofs: the generated definitions are unfolded to the coordinates and compared as rational functions *)
-Ltac vec_field := unfold lnT, norm2, vsum, vpow, vsub, vadd, vscal; cbn [vx vy vz]; field.
-Ltac vec_ring := unfold lnT, norm2, vsum, vpow, vsub, vadd, vscal; cbn [vx vy vz]; ring.
+Ltac vec_field := unfold lnT, norm2, vsum, vpow, vmul, vsub, vadd, vscal; cbn [vx vy vz]; field.
+Ltac vec_ring := unfold lnT, norm2, vsum, vpow, vmul, vsub, vadd, vscal; cbn [vx vy vz]; ring.
 
 Lemma dd_lnT_arg_is_log_density_ratio :
   dd_lnT_arg_real tstep gauss (Dt x) (Dt x') = lnT tstep Dt x' x - lnT tstep Dt x x'.
@@ -38,43 +38,41 @@ Proof.
   rewrite E. clear E. rewrite <- dd_lnT_arg_is_log_density_ratio. reflexivity.
 Qed.
 
-(* what the uniform number is compared with: |Psi'/Psi|^2 t_prob, times sign(Psi'/Psi) for real wave functions; the same exponential in both *)
+(* The acceptance test may be written `u < |v|^2 t_prob sign(v)` or `u < |v|^2 t_prob /\ 0 < v` (or with the factors in another order): the
+   proofs below unfold it, name the one exponential it contains (the generated dd_t_prob_* is that very sub-expression), and finish by real arithmetic. *)
 Lemma dd_tprob_same dx dn : dd_t_prob_complex tstep gauss dx dn = dd_t_prob_real tstep gauss dx dn.
 Proof. unfold dd_t_prob_complex, dd_t_prob_real. first [reflexivity | f_equal; vec_field; lra]. Qed.
-Lemma dd_ratio_complex_shape v dx dn : dd_ratio_complex tstep v gauss dx dn = Rabs v ^ 2 * dd_t_prob_complex tstep gauss dx dn.
-Proof. unfold dd_ratio_complex, dd_t_prob_complex. ring. Qed.
-Lemma dd_ratio_real_shape v dx dn : dd_ratio_real tstep v gauss dx dn = Rabs v ^ 2 * dd_t_prob_real tstep gauss dx dn * sgn v.
-Proof. unfold dd_ratio_real, dd_t_prob_real. ring. Qed.
-Lemma dd_accept_complex_shape v dx dn : dd_accept_complex tstep u v gauss dx dn <-> u < dd_ratio_complex tstep v gauss dx dn.
-Proof. unfold dd_accept_complex, dd_ratio_complex. split; intro H; exact H. Qed.
-Lemma dd_accept_real_shape v dx dn : dd_accept_real tstep u v gauss dx dn <-> u < dd_ratio_real tstep v gauss dx dn.
-Proof. unfold dd_accept_real, dd_ratio_real. split; intro H; exact H. Qed.
+Ltac name_tprob q :=
+  match goal with |- context [exp ?a] => set (q := exp a) in * end.
+Ltac finish_accept := unfold mh_prob, Rmin; repeat match goal with |- context [Rle_dec ?a ?b] => destruct (Rle_dec a b) end;
+  split; intros; repeat match goal with H : _ /\ _ |- _ => destruct H end; repeat split; try lra; try nra.
 
 (* complex wave functions: plain Metropolis-Hastings *)
 Theorem dd_accept_complex_is_mh (v : R) : 0 <= u < 1 ->
   (dd_accept_complex tstep u v gauss (Dt x) (Dt x') <-> u < mh_prob (Rabs v ^ 2) (Tdens tstep Dt x' x / Tdens tstep Dt x x')).
 Proof.
-  intros Hu. rewrite dd_accept_complex_shape, dd_ratio_complex_shape, dd_tprob_same, dd_tprob_is_density_ratio. unfold mh_prob.
-  set (q := Rabs v ^ 2 * (Tdens tstep Dt x' x / Tdens tstep Dt x x')). unfold Rmin. destruct (Rle_dec 1 q); split; intro; lra.
+  intros Hu. rewrite <- dd_tprob_is_density_ratio, <- dd_tprob_same. unfold dd_accept_complex, dd_t_prob_complex.
+  name_tprob t. set (a := Rabs v ^ 2). finish_accept.
 Qed.
 
 (* real wave functions: same rule when the sign is kept ... *)
 Theorem dd_accept_real_same_sign (v : R) : 0 <= u < 1 -> 0 < v ->
   (dd_accept_real tstep u v gauss (Dt x) (Dt x') <-> u < mh_prob (Rabs v ^ 2) (Tdens tstep Dt x' x / Tdens tstep Dt x x')).
 Proof.
-  intros Hu Hv. rewrite dd_accept_real_shape, dd_ratio_real_shape, (sgn_pos v Hv), Rmult_1_r, dd_tprob_is_density_ratio. unfold mh_prob.
-  set (q := Rabs v ^ 2 * (Tdens tstep Dt x' x / Tdens tstep Dt x x')). unfold Rmin. destruct (Rle_dec 1 q); split; intro; lra.
+  intros Hu Hv. rewrite <- dd_tprob_is_density_ratio. unfold dd_accept_real, dd_t_prob_real. rewrite ?(sgn_pos v Hv).
+  name_tprob t. set (a := Rabs v ^ 2). finish_accept.
 Qed.
 
 (* ... and a move that changes the sign of Psi (or lands on the node) is never accepted: fixed node *)
 Theorem dd_fixed_node (v : R) (dn : vec3) : 0 <= u -> v <= 0 -> ~ dd_accept_real tstep u v gauss (Dt x) dn.
 Proof.
-  intros Hu Hv. rewrite dd_accept_real_shape, dd_ratio_real_shape.
-  set (t := dd_t_prob_real tstep gauss (Dt x) dn). assert (Ht : 0 < t) by (subst t; unfold dd_t_prob_real; apply exp_pos).
-  assert (Ha : 0 <= Rabs v ^ 2) by (apply pow2_ge_0).
+  intros Hu Hv. unfold dd_accept_real.
+  name_tprob t. assert (Ht : 0 < t) by (subst t; apply exp_pos).
+  assert (Ha : 0 <= Rabs v ^ 2) by (apply pow2_ge_0). set (a := Rabs v ^ 2) in *.
+  assert (Hat : 0 <= a * t) by (apply Rmult_le_pos; lra).
   destruct (Rle_lt_or_eq_dec v 0 Hv) as [Hneg|Hz].
-  - rewrite (sgn_neg v Hneg). nra.
-  - subst v. rewrite sgn_zero. lra.
+  - rewrite ?(sgn_neg v Hneg). intro H. repeat match goal with H : _ /\ _ |- _ => destruct H end; nra.
+  - subst v. rewrite ?sgn_zero. intro H. repeat match goal with H : _ /\ _ |- _ => destruct H end; nra.
 Qed.
 
 Theorem dd_returns : 
@@ -94,21 +92,27 @@ Proof.
   - lra.
 Qed.
 
+Lemma abs_between x y : Rabs x <= y -> - y <= x <= y.
+Proof. unfold Rabs; destruct (Rcase_abs x); lra. Qed.
+
 (* S = E_T - E_est + f_sat(E_est - E_L)/sqrt(1 + (v2 tau/N)^2) lies within cut of E_T - E_est, whatever the local energy *)
 Theorem compute_S_bounded tau branchcut e_est e_trial eloc nelec v2 : 0 <= branchcut ->
   e_trial - e_est - branchcut <= dmc_compute_S tau branchcut e_est e_trial eloc nelec v2 <= e_trial - e_est + branchcut.
 Proof.
   intros Hb. unfold dmc_compute_S.
-  set (s := if Rlt_dec branchcut (Rabs (e_est - eloc)) then branchcut * sgn (e_est - eloc) else e_est - eloc).
-  pose proof (sat_bound branchcut (e_est - eloc) Hb) as Hs. fold s in Hs.
-  set (den := sqrt (1 + (v2 * tau / nelec) ^ 2)).
-  assert (Hden : 1 <= den).
-  { subst den. rewrite <- sqrt_1 at 1. apply sqrt_le_1_alt. pose proof (pow2_ge_0 (v2 * tau / nelec)). lra. }
-  assert (Hq : Rabs (s / den) <= branchcut).
-  { unfold Rdiv. rewrite Rabs_mult. rewrite (Rabs_right (/ den)) by (apply Rle_ge, Rlt_le, Rinv_0_lt_compat; lra).
-    assert (/ den <= 1) by (rewrite <- Rinv_1; apply Rinv_le_contravar; lra).
-    assert (0 < / den) by (apply Rinv_0_lt_compat; lra). pose proof (Rabs_pos s). nra. }
-  unfold Rabs in Hq. destruct (Rcase_abs (s / den)); lra.
+  (* shape-independent: name the square root, split on the saturation test, bound the numerator in each branch *)
+  match goal with |- context [sqrt ?a] => set (den := sqrt a) end.
+  assert (Hden : 1 <= den) by (subst den; rewrite <- sqrt_1 at 1; apply sqrt_le_1_alt; nra).
+  assert (Hi : 0 < / den <= 1) by (split; [apply Rinv_0_lt_compat; lra | rewrite <- Rinv_1; apply Rinv_le_contravar; lra]).
+  pose proof (sgn_abs (e_est - eloc)) as Hsg. apply abs_between in Hsg.
+  assert (Key : forall n, - branchcut <= n <= branchcut -> e_trial - e_est - branchcut <= e_trial - e_est + n / den <= e_trial - e_est + branchcut).
+  { intros n Hn. unfold Rdiv. set (i := / den) in *. destruct (Rle_lt_dec 0 n); nra. }
+  repeat match goal with
+  | |- context [if Rlt_dec ?a ?b then _ else _] => destruct (Rlt_dec a b) as [Hc|Hc]
+  | |- context [if Rle_dec ?a ?b then _ else _] => destruct (Rle_dec a b) as [Hc|Hc]
+  end; apply Key.
+  - nra.
+  - apply abs_between. lra.
 Qed.
 
 Lemma exp_mono a b : a <= b -> exp a <= exp b.
@@ -153,11 +157,14 @@ Qed.
 Theorem dmc_limdrift_shrinks tau acyrus g : 0 < tau -> 0 < acyrus ->
   exists c, dmc_limdrift tau acyrus g = vscal c g /\ 0 < c <= tau.
 Proof.
-  intros Ht Ha. unfold dmc_limdrift. set (v2 := vsum (vpow g 2)).
-  destruct (Rlt_dec _ v2) as [H|H].
+  intros Ht Ha. unfold dmc_limdrift. rewrite ?vsum_vmul_self. set (v2 := vsum (vpow g 2)).
+  match goal with |- context [Rlt_dec ?a v2] => destruct (Rlt_dec a v2) as [H|H] end.
   - eexists. split; [reflexivity|].
     assert (Hv : 0 < v2). { eapply Rlt_trans; [|exact H]. lra. }
     set (y := 2 * tau * acyrus * v2). assert (Hy : 0 < y) by (subst y; repeat apply Rmult_lt_0_compat; lra).
+    (* whatever way the source spells 1 + 2 tau a v2 and a v2 *)
+    match goal with |- context [sqrt ?a] => replace a with (1 + y) by (subst y; ring) end.
+    match goal with |- _ < _ / ?d <= _ => replace d with (acyrus * v2) by ring end.
     assert (S1 : 1 < sqrt (1 + y)). { rewrite <- sqrt_1 at 1. apply sqrt_lt_1_alt. lra. }
     assert (S2 : sqrt (1 + y) <= 1 + y / 2).
     { rewrite <- (sqrt_square (1 + y / 2)) by lra. apply sqrt_le_1_alt. nra. }
@@ -166,5 +173,5 @@ Proof.
     + assert (Hav : 0 < acyrus * v2) by (apply Rmult_lt_0_compat; lra).
       apply (Rmult_le_reg_r (acyrus * v2)); [exact Hav|]. unfold Rdiv. rewrite Rmult_assoc, Rinv_l by lra.
       replace (tau * (acyrus * v2)) with (y / 2) by (subst y; field). lra.
-  - exists (1 * tau). split; [reflexivity|lra].
+  - eexists. split; [reflexivity|lra].
 Qed.
